@@ -104,7 +104,9 @@ func (dmx *Demuxer) NextPacket() (p *Packet, err error) {
 	// Create packet buffer if not exists
 	if dmx.packetBuffer == nil {
 		if dmx.packetBuffer, err = newPacketBuffer(dmx.r, dmx.optPacketSize, dmx.optPacketSkipper); err != nil {
-			err = fmt.Errorf("astits: creating packet buffer failed: %w", err)
+			if err != ErrNoMorePackets {
+				err = fmt.Errorf("astits: creating packet buffer failed: %w", err)
+			}
 			return
 		}
 	}
